@@ -74,6 +74,16 @@ Theorem C13x_failed_load_sticks : forall bane inp s inp', globals bane inp = (s,
   load_globals bane s inp' = (s, true) /\ s_img s = select inp.
 Proof. exact failed_load_sticks. Qed.
 
+(* cube_index not given (the default of load_globals / find_sources_in_image / priorized_fit_islands): the first plane is used, as in
+   BANE.filter_image - the call behaves exactly like cube_index = 0 (same data, maps, exceptions) and stores cube_index = 0, which is
+   what BANE and the later calls then see.  Stated at the GENERATED constant lg_cube_default_first_plane (through load_globals): on a
+   tree without `if cube_index is None: cube_index = 0` directly after the early return the leaf lemma lg_cube_default_eq fails
+   (regression record: Refuted/C13x_cube_default.v) *)
+Theorem C13x_cube_default_first_plane : forall bane s0 inp, i_ci inp = None ->
+  load_globals bane s0 inp = load_globals bane s0 (set_ci inp (Some 0%nat)) /\
+  (forall s, s_img s0 = None -> load_globals bane s0 inp = (s, true) -> s_ci s = Some 0%nat).
+Proof. exact cube_default_first_plane. Qed.
+
 (* statement order of load_globals and the constants of the callers *)
 Theorem C13x_statement_order : lg_early_return = true /\ lg_stages = [1; 7; 2; 3; 4; 5; 6; 8; 9; 10; 11; 12; 2].
 Proof. exact (conj lg_early_return_eq lg_stages_eq). Qed.
@@ -105,12 +115,12 @@ Definition ex_in (bkgin : option auxfile) (rms bkg : option Z) : inputs :=
   mkIn false [ex_img] None rms bkg None bkgin false MNone.
 Example ex_file : fst (globals bane_fake (ex_in (Some (mkAux false ex_bkg [])) (Some 8) None)) =
   mkState (Some [[Some 0; Some 8; Some (-8)]; [Some (-8); None; Some 16]]) (Some ex_bkg)
-          (Some [[Some 8; Some 8; Some 8]; [Some 8; Some 8; Some 8]]) None None None.
+          (Some [[Some 8; Some 8; Some 8]; [Some 8; Some 8; Some 8]]) None None (Some 0%nat).
 Proof. vm_compute. reflexivity. Qed.
 Example ex_bane : obs_state (globals bane_fake (ex_in None None None)) =
   (true, (Some [[Some 8; Some 0; Some (-8)]; [Some (-32); None; Some 32]],
           Some [[Some 0; Some 16; Some 8]; [Some 24; None; Some (-8)]],
-          Some [[Some 32; Some 32; Some 32]; [Some 32; Some 32; Some 32]]), (None, None, None)).
+          Some [[Some 32; Some 32; Some 32]; [Some 32; Some 32; Some 32]]), (None, None, Some 0%nat)).
 Proof. vm_compute. reflexivity. Qed.
 (* a background file of the wrong shape raises and leaves the raw image in the object; the repeated call with a good file then
    returns without subtracting anything *)
@@ -119,9 +129,15 @@ Example ex_sticks : map (fun r => (snd r, s_img (fst r)))
   = [(false, Some ex_img); (true, Some ex_img)].
 Proof. vm_compute. reflexivity. Qed.
 
+(* a cube read without cube_index: plane 0, and the object remembers index 0 *)
+Example ex_cube : obs_state (globals bane_fake (mkIn true [ex_img; ex_bkg] None (Some 8) (Some 0) None None false MNone)) =
+  (true, (Some ex_img, Some (const_like 0 ex_img), Some (const_like 8 ex_img)), (None, None, Some 0%nat)).
+Proof. vm_compute. reflexivity. Qed.
+
 Print Assumptions C13x_background_subtracted_once.
 Print Assumptions C13x_map_sources.
 Print Assumptions C13x_negation.
 Print Assumptions C13x_shapes.
 Print Assumptions C13x_failed_load_sticks.
 Print Assumptions C13x_hypotheses_consistent.
+Print Assumptions C13x_cube_default_first_plane.
